@@ -14,6 +14,7 @@ import (
 	"sort"
 	"strconv"
 	"strings"
+	"syscall"
 )
 
 // Rng is splitmix64; every random choice of a harness derives from one state.
@@ -203,4 +204,47 @@ func SourceLiterals(lo, hi int64, dirs ...string) []int {
 	}
 	sort.Ints(out)
 	return out
+}
+
+// ForeignTmp points TMPDIR (os.TempDir) at a fresh directory on a file system OTHER than the one that holds dir,
+// so that whatever the library creates "in the temp directory" and then renames or links next to a file under dir
+// crosses a device boundary - as it does on every machine where /tmp is a tmpfs and the application's data is not.
+// It returns the directory ("" if this machine has no second writable file system) and a function that restores
+// TMPDIR and removes the directory.  Call it AFTER the harness has fixed its own scratch directories.  The directory is
+// named after the process id, so that a supervisor can remove what a killed child left (RemoveForeignTmp).
+var foreignCandidates = []string{"/dev/shm", "/run/shm", "/run/lock", "/var/tmp", "/tmp", "/run"}
+
+func ForeignTmp(dir string) (string, func()) {
+	var st syscall.Stat_t
+	if syscall.Stat(dir, &st) != nil {
+		return "", func() {}
+	}
+	old, had := os.LookupEnv("TMPDIR")
+	for _, c := range foreignCandidates {
+		var sc syscall.Stat_t
+		if syscall.Stat(c, &sc) != nil || sc.Dev == st.Dev {
+			continue
+		}
+		d := filepath.Join(c, fmt.Sprintf("mtproto-verif-tmp-%d", os.Getpid()))
+		if err := os.MkdirAll(d, 0o700); err != nil {
+			continue
+		}
+		os.Setenv("TMPDIR", d)
+		return d, func() {
+			if had {
+				os.Setenv("TMPDIR", old)
+			} else {
+				os.Unsetenv("TMPDIR")
+			}
+			os.RemoveAll(d)
+		}
+	}
+	return "", func() {}
+}
+
+// RemoveForeignTmp removes what ForeignTmp created in the process pid (which may have been killed).
+func RemoveForeignTmp(pid int) {
+	for _, c := range foreignCandidates {
+		os.RemoveAll(filepath.Join(c, fmt.Sprintf("mtproto-verif-tmp-%d", pid)))
+	}
 }
